@@ -1,11 +1,11 @@
 """Properties not claimed, with the reason (mirrored into MANIFEST.json by tools/gen_manifest.py)."""
 _NOTYET = "contract-based check not built yet in this session (planned, see DESIGN.md section 0); not claimed until it is"
 NOT_APPLICABLE = {
-    "C01": _NOTYET, "C03": _NOTYET, "C04": _NOTYET, "C05": _NOTYET, "C06": _NOTYET,
+    "C01": _NOTYET, "C04": _NOTYET, "C05": _NOTYET, "C06": _NOTYET,
     "C07": "sequencer delivery is produced by std::vector/std::list/std::set manipulating C++ (buildSmfTrackData, buildTimeLine, processEvents) that CBMC's C++ front end cannot parse and no syntactic extraction turns into C; the statement is a trace equality against an independent reading of SMF timing, i.e. a second interpreter = a model, which this technique family excludes (DESIGN.md C07)",
     "C08": "seek equivalence is a trace equality between two runs of the STL-based sequencer (Route C code, not reachable by CBMC contracts); contracts on the reachable fragments do not imply the statement (DESIGN.md C07)",
     "C09": "loop-point repetition counts are a whole-history property of processEvents/seek over std::list iterators and floating-point time; not expressible as a per-function contract on code CBMC can read (DESIGN.md C07)",
-    "C10": _NOTYET, "C12": _NOTYET, "C13": _NOTYET, "C14": _NOTYET, "C16": _NOTYET,
+    "C10": _NOTYET, "C12": _NOTYET, "C14": _NOTYET, "C16": _NOTYET,
     "C17": "the statement is about the event sequence delivered by the sequencer and its timing (Route C code); at converter level the only available oracle would be a re-implementation of the converter as specification, i.e. proving one hand-written translation against another (DESIGN.md C17); converter memory safety is handled under C01",
     "C18": _NOTYET,
     "C20": "a spectral/envelope property of >20000 lines of emulator cores (five of seven in templated C++) integrated over thousands of samples with percent tolerances; no contract on a single function expresses the fundamental of the rendered signal (DESIGN.md C20)",
